@@ -646,6 +646,9 @@ func (c *CheckCtx) nativePhase() error {
 	jobs := map[string][]nativeJob{}
 	// 1. violations
 	for i, v := range c.Viol {
+		if v.Harness == "" {
+			continue
+		}
 		pkg, fn := pkgOfHarness(c, v.Harness)
 		jobs[pkg] = append(jobs[pkg], nativeJob{ID: fmt.Sprintf("viol-%d", i), Harness: fn, Witness: v.Witness})
 	}
